@@ -160,6 +160,9 @@ def conclude(res, tier, t0, info):
         r[1] += 1 if o["ok"] else 0
     for r, (n, h) in sorted(rules.items()):
         print("   rule %-22s instances=%-3d held=%d" % (r, n, h))
+    for c in res.controls:
+        print("   control %-60s %s%s" % (c.get("name", "?")[-60:], "skipped" if c.get("skipped") else ("ok" if c.get("ok") else "FAILED"),
+                                         (" (fired: %s)" % ",".join(c.get("fired_rules", []))) if c.get("fired_rules") else ""))
     for n in res.notes:
         print("   note: " + n)
     os.makedirs(os.path.join(VERIF, "evidence", "replay"), exist_ok=True)
